@@ -395,17 +395,6 @@ theorem h2_response_delivered (srv : Headers) (cw : Int) (mf : Nat) (hmf : 0 < m
   rw [hhd, f1, he] at hs
   exact hs
 
-/-- the stream events an `HTTPStream` event becomes in `H2Protocol.stream_send` (the access-log call is not one) -/
-def evOps : List Ev → List AOp
-  | [] => []
-  | .response st hs :: r => .head st hs :: evOps r
-  | .info st hs :: r => .head st hs :: evOps r
-  | .body d :: r => .body d :: evOps r
-  | .trailers hs :: r => .trailers hs :: evOps r
-  | .endBody :: r => .end_ :: evOps r
-  | .streamClosed :: r => .closed :: evOps r
-  | _ :: r => evOps r
-
 theorem evOps_append (a b : List Ev) : evOps (a ++ b) = evOps a ++ evOps b := by
   induction a with
   | nil => rfl
